@@ -107,6 +107,26 @@ def one(ctx, rng, k, do_codegen):
                     ctx.violation("C19:codegen:differs:%s" % d.split(":")[0].split("[")[0].strip("."),
                                   "%s differs from a fresh compile at %s\noptions %s\n%s" % (label, d, opts, text), case)
                     return
+            # the same folder used again with another option set: libraries built for the first one are lying around
+            opts_b = dict(rng.choice([o for o in gencache.OPTION_SETS if o != opts]))
+            try:
+                sig_ref_b = cachecmp.signature(api.transfer_model(folder, "M", dict(opts_b)))
+            except Exception as e:
+                ctx.discard("second-option-set:fresh-compile-fails:" + type(e).__name__)
+                return
+            ctx.cover("codegen:second-option-set-in-the-same-folder")
+            for label in ("codegen after another option set (compile)", "codegen after another option set (load .so)"):
+                r = run_worker(folder, dict(opts_b, codegen=True))
+                if "exception" in r:
+                    ctx.violation("C19:codegen:second-option-set:transfer-raises:%s" % r["exception"],
+                                  "%s raised %s: %s\nfirst options %s, then %s\n%s" % (label, r["exception"], r.get("message"), opts, opts_b, text), case)
+                    return
+                ctx.monitor("signature_comparisons")
+                d = cachecmp.first_difference(sig_ref_b, r["signature"])
+                if d:
+                    ctx.violation("C19:codegen:second-option-set:differs:%s" % d.split(":")[0].split("[")[0].strip("."),
+                                  "%s differs from a fresh compile at %s\nfirst options %s, then %s\n%s" % (label, d, opts, opts_b, text), case)
+                    return
     finally:
         shutil.rmtree(folder, ignore_errors=True)
 
@@ -114,7 +134,8 @@ def one(ctx, rng, k, do_codegen):
 def run_shard(ctx):
     logging.disable(logging.CRITICAL)
     n = ctx.n(320, 10000)
-    ncg = 1 if ctx.quick() else 20
+    # (quick: code generation on shards 0-5 only; six compiler runs per case leave little of the budget otherwise)
+    ncg = (1 if ctx.shard < 6 else 0) if ctx.quick() else 20
     for k in range(n):
         if ctx.out_of_time():
             break
